@@ -150,7 +150,7 @@ Restart == /\ Is("Restart")
 Settle ==
   /\ Is("Settle")
   /\ LET st == Quiet
-         steady == ~st.c.buffered /\ st.online /\ ~st.failing
+         steady == st.online /\ ~st.failing
          \* (records that could not be delivered are sent again once delivery works; the node retries every 5 minutes;
          \* after an outage the node is given the same time from the moment connectivity returns)
          from(k) == Max(Max(st.since[k], st.healSince), st.onlineSince)
